@@ -8,7 +8,7 @@ use std::panic::{catch_unwind, AssertUnwindSafe};
 enum Rule { r }
 
 fn inputs(maxlen: usize) -> Vec<String> {
-    let alpha = ["a", "b", "é", "<", "\n"];
+    let alpha = ["a", "b", "é", "<", "\n", "㩍"];   // é = C3 A9, 㩍 = E3 A9 8D: lead bytes that differ in bit 5 only, same second byte
     let mut out = vec![String::new()];
     let mut layer = vec![String::new()];
     for _ in 0..maxlen { let mut nl = vec![]; for s in &layer { for a in alpha { nl.push(format!("{}{}", s, a)); } } out.extend(nl.iter().cloned()); layer = nl; }
@@ -66,7 +66,7 @@ fn check(input: &str, start: usize, needles: &[&str]) -> Result<(), String> {
 fn main() {
     std::panic::set_hook(Box::new(|_| {}));
     let args: Vec<String> = std::env::args().collect();
-    let pool = ["", "a", "b", "ab", "é", "<a", "<b", "ba"];
+    let pool = ["", "a", "b", "ab", "é", "<a", "<b", "ba", "aé"];
     let mut sets: Vec<Vec<&str>> = vec![vec![]];
     for a in pool { sets.push(vec![a]); for b in pool { sets.push(vec![a, b]); for c in pool { sets.push(vec![a, b, c]); } } }
     for a in pool { sets.push(vec![a, "b", "a", "é"]); }
@@ -88,5 +88,5 @@ fn main() {
             }
         }
     }
-    println!("NO-WITNESS all inputs up to 4 characters over {{a,b,é,<,\\n}} x {} needle sets agree with the reference readings", sets.len());
+    println!("NO-WITNESS all inputs up to 4 characters over {{a,b,é,<,\\n,㩍}} x {} needle sets agree with the reference readings", sets.len());
 }
